@@ -212,6 +212,13 @@ class Driver {
     }
     Explorer ex;
     ex.tape = c.tape;
+    if (!c.dfs.empty()) {
+      ex.mode = Explorer::kDfs;
+      ex.preempt_bound = static_cast<unsigned>(c.dfs[0]);
+      for (std::size_t i = 1; i + 1 < c.dfs.size(); i += 2) {
+        ex.dfs.emplace_back(static_cast<std::uint16_t>(c.dfs[i]), static_cast<std::uint16_t>(c.dfs[i + 1]));
+      }
+    }
     Verdict v = fam->Run(c, ex);
     std::printf("%s\n", fam->Describe(c).c_str());
     std::printf("REPLAY family=%s property=%s verdict=%s%s%s msg=%s\n", fam->Name(), fam->Property(),
@@ -333,12 +340,18 @@ class Driver {
       ex.record_eff = true;
       long n = 0;
       do {
+        c.dfs.assign(1, bound);
+        for (auto& [val, ar] : ex.dfs) {
+          c.dfs.push_back(val);
+          c.dfs.push_back(ar);
+        }
         NoteLast(c);
         Verdict v = fam.Run(c, ex);
         ++n;
         Record(fam, c, v);
         if (!v.ok) {
           Case fc = c;
+          fc.dfs.clear();
           fc.tape = ex.eff;
           ++_st.failures;
           SaveFail(fc, v);
